@@ -12,9 +12,11 @@ import MM.Lemmas.C11
   * `C15_at_limit`  at exactly `maxHops` hops it is stored but not forwarded.
   * `C15_statement` in every history (any topology — chains, rings, meshes longer than the limit —
                     any schedule, replays included): no stored route has a path longer than the
-                    limit and no forwarded copy carries one; the only frames that can carry
-                    `maxHops + 1` agents are SendFullTable replays of a route stored exactly at the
-                    limit, and their receivers drop them (`C15_beyond`).
+                    limit and no frame in flight carries one (SendFullTable does not replay a route
+                    stored exactly at the limit — fixes/C15-wire-count-replay.patch).
+  * `C15_no_wrap`   whatever the limit, no advertisement in flight lists more than 255 agents, so the
+                    one-byte wire counts never wrap (before the repair a 256-agent replay at
+                    max_hops = 255 was decoded as an EMPTY path and the hop count restarted).
 -/
 namespace MM.C15
 open MM.C11
